@@ -48,6 +48,9 @@ def run_graphs(ctx, lib, graphs, obs, classes, invariants, maxlen=60, jobs=8):
         edges_total += tot
         edges_cov += cov
         for cls in classes:
+            if ctx.violations:
+                ctx.notes.append("replay of %s/%s skipped after a violation was found" % (name, cls))
+                continue
             st = pipeline.replay_validate(ctx, "%s-%s" % (name, cls), "vf.drv_core", [lib, cls], walks, "Trace_Core",
                                           trace_consts(c, obs), invariants=invariants, jobs=jobs)
             pipeline.report_rejections(ctx, "%s-%s" % (name, cls), st, "vf.drv_core", [lib, cls])
@@ -82,13 +85,13 @@ def c03(ctx):
                                   timeout=3000)
     # 2. graphs that are replayed edge by edge
     graphs = [
-        ("c03-sess", consts(Acts='{"sess", "stale", "info"}', MaxH="3" if quick else "4", MaxO="0")),
+        ("c03-sess", consts(Acts='{"sess", "stale", "info", "utypes"}', MaxH="3" if quick else "4", MaxO="0")),
         ("c03-pin", consts(Tokens='{"t1"}' if quick else '{"t1", "t2"}', Acts='{"sess", "pin"}', MaxH="2", MaxO="0",
                            LoginPins='{"P1", "P2", "P3", "short"}')),
     ]
     r = run_graphs(ctx, lib, graphs, ["rv", "ss"], ["secret"], INV_SESS, jobs=8 if quick else 14)
     # 3. beyond the bounds: simulation with up to 8 handles, depth 60
-    s = run_sim(ctx, lib, "c03-sim", consts(Acts='{"sess", "pin", "info", "stale"}', MaxH="8", MaxO="0"),
+    s = run_sim(ctx, lib, "c03-sim", consts(Acts='{"sess", "pin", "info", "stale", "utypes"}', MaxH="8", MaxO="0"),
                 200 if quick else 3000, 60, ["rv", "ss"], ["secret"], INV_SESS)
     ctx.coverage.update(dict(
         states=res.distinct + r["states"], transitions=res.generated + r["transitions"],
@@ -105,3 +108,50 @@ def c03(ctx):
     ctx.assumptions += ["TLC explores the bounded model completely (2 tokens, handles <= MaxH)",
                         "PIN symbols are concretised as random byte strings per seed",
                         "token flags (PIN count low) are not observed by this check"]
+
+
+ALL_CLASSES = ["secret", "data", "cert", "pubkey", "privkey"]
+
+
+def c11(ctx):
+    lib = build.libpath(build.build("ossl"))
+    quick = ctx.tier == "quick"
+    wide = consts(Acts='{"sess", "obj", "find", "stale"}', MaxH="4" if quick else "5", MaxO="2",
+                  LoginPins='{"P1", "P2"}')
+    res, _ = pipeline.model_check(ctx, "MC_Core", "c11-wide", wide, invariants=INV_OBJ, properties=PROPS, timeout=3000)
+    if quick:
+        graphs = [
+            ("c11-stale", consts(Acts='{"sess", "obj", "find", "stale"}', MaxH="3", MaxO="2", LoginPins='{"P1", "P2"}')),
+            ("c11-one", consts(Tokens='{"t1"}', Acts='{"sess", "obj", "find"}', MaxH="4", MaxO="2",
+                               LoginPins='{"P1", "P2"}')),
+        ]
+        classes = ["secret", "data"]
+    else:
+        graphs = [
+            ("c11-stale", consts(Acts='{"sess", "obj", "find", "stale"}', MaxH="4", MaxO="2", LoginPins='{"P1", "P2"}')),
+            ("c11-copy", consts(Tokens='{"t1"}', Acts='{"sess", "obj", "copy", "find"}', MaxH="4", MaxO="3",
+                                LoginPins='{"P1", "P2"}')),
+        ]
+        classes = ["secret", "cert"]
+    obs = ["rv", "ss", "oo", "id"]
+    r = run_graphs(ctx, lib, graphs, obs, classes, INV_OBJ, jobs=14)
+    s = run_sim(ctx, lib, "c11-sim", consts(Acts='{"sess", "obj", "copy", "find", "stale"}', MaxH="10", MaxO="5",
+                                            LoginPins='{"P1", "P2"}'),
+                300 if quick else 4000, 50 if quick else 80, obs, ["secret"] if quick else ALL_CLASSES[:1] + ["privkey"],
+                INV_OBJ, jobs=14)
+    ctx.coverage.update(dict(
+        states=res.distinct + r["states"], transitions=res.generated + r["transitions"],
+        traces_validated_against_impl=r["accepted"] + s["accepted"],
+        executions=r["executions"] + s["executions"], events_validated=r["events"] + s["events"],
+        model_transitions_replayed=r["edges_replayed"], model_transitions_in_replayed_graphs=r["edges_total"],
+        exhaustive=(r["edges_replayed"] == r["edges_total"]),
+        simulated_behaviours=s["behaviours"], object_classes=classes,
+        samples=r["samples"][:2],
+        rule="every transition of the bounded MC_Core graphs (sessions, login, object creation/destruction, search; "
+             "stale and foreign handles as arguments) is executed on the library; after every call every session "
+             "handle and every object handle ever issued is probed (C_GetSessionInfo, C_GetObjectSize, identity "
+             "attribute) and TLC checks validity, denotation and freshness against the specification.",
+    ))
+    ctx.assumptions += ["object identity is read back through CKA_ID / CKA_APPLICATION tags written by the driver",
+                        "object handles of a token without any open session are probed through a session of the other "
+                        "token; if no session is open at all they are not probed (the specification says they are dead)"]
